@@ -371,6 +371,23 @@ pub fn token_sequences(max_len: usize) -> Vec<Shard> {
 
 pub const PUSH_LENS: [usize; 15] = [0, 1, 19, 20, 21, 33, 65, 75, 76, 80, 255, 256, 520, 65_535, 65_536];
 
+/// Text in which a multi-byte character straddles EVERY byte offset up to `len` in at least one member: an ASCII prefix of
+/// k bytes followed by a run of n-byte characters, for n = 2, 3, 4 and k = 0..n (a cut at a fixed byte index - "the first 80
+/// bytes", "at most 128" - falls inside a character in one of them whatever the index is).
+pub fn utf8_alignment_payloads(len: usize) -> Vec<(String, Vec<u8>)> {
+    let mut v = Vec::new();
+    for (n, ch) in [(2usize, "é"), (3, "七"), (4, "🐟")] {
+        for k in 0..n {
+            let mut t = "a".repeat(k);
+            while t.len() + n <= len {
+                t.push_str(ch);
+            }
+            v.push((format!("utf8-{}byte-chars-behind-{}-ascii", n, k), t.into_bytes()));
+        }
+    }
+    v
+}
+
 /// every push encoding able to carry `len` bytes: (form name, encoded push)
 pub fn push_forms(d: &[u8]) -> Vec<(&'static str, Vec<u8>)> {
     let mut v = Vec::new();
@@ -723,6 +740,12 @@ pub fn opreturn_payload_scripts() -> Vec<(String, Vec<u8>)> {
         ("separators", b"a;b,c\"d'e\tf|g".to_vec()),
         ("only-newline", b"\n".to_vec()),
         ("only-space", b" ".to_vec()),
+        ("trailing-spaces", b"fixed width     ".to_vec()),
+        ("trailing-tab", b"abc\t".to_vec()),
+        ("leading-and-trailing-space", b"  abc  ".to_vec()),
+        ("trailing-nbsp", "abc\u{a0}".as_bytes().to_vec()),
+        ("trailing-ideographic-space", "abc\u{3000}".as_bytes().to_vec()),
+        ("trailing-line-separator", "abc\u{2028}".as_bytes().to_vec()),
         ("replacement-char", vec![0xef, 0xbf, 0xbd]),
         ("replacement-char-inside", "Gr\u{fffd}\u{fffd}e aus Z\u{fffd}rich".as_bytes().to_vec()),
         ("bom", vec![0xef, 0xbb, 0xbf, b'x']),
@@ -739,6 +762,8 @@ pub fn opreturn_payload_scripts() -> Vec<(String, Vec<u8>)> {
         ("ill-5-byte", vec![0xf8, 0x88, 0x80, 0x80, 0x80]),
         ("ill-fe", vec![b'a', 0xfe, b'b']),
     ];
+    let mut specials: Vec<(String, Vec<u8>)> = specials.into_iter().map(|(n, d)| (n.to_string(), d)).collect();
+    specials.extend(utf8_alignment_payloads(200));
     for (cname, d) in specials {
         for (fname, enc) in push_forms(&d) {
             let mut s = vec![0x6a];
